@@ -1,1 +1,131 @@
-//! genvcf — stub (to be implemented).
+//! genvcf — the shared VCF data model of the monitoring harness (C04, C09, C10, C12–C14, C16, C20).
+//!
+//! # API (kept small and stable)
+//!
+//! Descriptions (plain data, no noodles types; oracles are computed from these):
+//! * [`HeaderDesc`] `{ fileformat, infos, filters, formats, alts, contigs, others, samples }` with
+//!   [`FieldDef`], [`FilterDef`], [`AltDef`], [`ContigDef`], [`OtherLine`], [`Num`], [`Ty`];
+//! * [`RecDesc`] `{ chrom, pos (0 = telomere), ids, reference, alts, qual (f32 bits), filters
+//!   ([] = missing, ["PASS"]), info [(key, Option<Val>)], format, samples [[Option<Val>]] }` with
+//!   [`Val`] (`Flag Int Float(bits) Char Str Ints Floats Chars Strs Gt`) and [`GtAllele`].
+//!
+//! Generators (pure functions of the `vcore::Rng` handed in):
+//! * [`gen_header`]`(&mut Rng, &HeaderOpts) -> HeaderDesc` — `HeaderOpts { fileformat, max_samples,
+//!   idx: IdxMode::{None,Natural,Permuted,Sparse}, model, extras, min_contig_len }`;
+//! * [`gen_record`]`(&mut Rng, &HeaderDesc, &RecOpts) -> RecDesc` — `RecOpts { model:
+//!   Model::{Full,Bcf,Common}, nan, invalid_ints, rare }`; consistent with the header (Number=A/R/G
+//!   lengths follow the ALT count, FORMAT keys / sample count follow the header, first-allele
+//!   phasing is the implied one before VCF 4.4);
+//! * [`coordinate_sorted_set`]`(&mut Rng, &HeaderDesc, n, &RecOpts) -> Vec<RecDesc>` — sorted by
+//!   (contig order, POS), unique IDs `v1..`, spans straddling the index bin edges;
+//! * [`features`]`(&RecDesc, &HeaderDesc) -> Vec<String>` — data-free shape tokens (coverage /
+//!   distinct-case fingerprints).
+//!
+//! Independent text side (written from the VCF specification, not from noodles):
+//! * [`to_vcf_line`]`(&RecDesc, &HeaderDesc) -> Vec<u8>` (with LF), [`to_vcf_header`]`(&HeaderDesc) -> String`;
+//! * [`rec_from_line`]`(&[u8], &HeaderDesc) -> Result<RecDesc, String>` — TAB/`;`/`,`/`:` splitter +
+//!   percent-decoding, typed by the header *description*; [`header_from_text`] likewise for headers;
+//! * [`percent_encode`] / [`percent_decode`], [`span`]`(&RecDesc, fileformat) -> Result<(start, end), String>`.
+//!
+//! noodles side (public builders / accessors only, never a parser):
+//! * [`to_noodles_header`]`(&HeaderDesc) -> Result<vcf::Header, String>`, [`to_record_buf`]`(&RecDesc) -> RecordBuf`;
+//! * [`header_desc_of`]`(&vcf::Header)`, [`rec_desc_of_buf`]`(&RecordBuf)`,
+//!   [`rec_desc_of_record`]`(&Header, &impl variant::Record)` (works for `vcf::Record`, `bcf::Record`),
+//!   [`series_of_record`] (column-wise view).
+//!
+//! Comparison: [`diff_records`]`(exp, got, &Tol) -> Vec<FieldDiff>` (column, key, diagnostic class,
+//! detail), [`diff_headers`], tolerances [`Tol::TEXT`] (NaN == NaN, trailing missing sample values,
+//! `[.]` == missing) / [`Tol::BITS`] (floats by bit pattern) / [`Tol::EXACT`];
+//! [`canon_first_phasing`] for files before VCF 4.4.
+
+pub mod conv;
+pub mod r#gen;
+pub mod model;
+pub mod text;
+
+pub use conv::{header_desc_of, rec_desc_of_buf, rec_desc_of_record, series_of_record, to_noodles_header, to_record_buf};
+pub use r#gen::{HeaderOpts, IdxMode, Model, RecOpts, assign_idx, coordinate_sorted_set, features, format_combos, gen_header, gen_record, gen_record_at, info_combos};
+pub use model::{AltDef, ContigDef, FieldDef, FieldDiff, FilterDef, GtAllele, HeaderDesc, Num, OtherLine, RecDesc, Tol, Ty, Val, classify, diff_headers, diff_records, opt_val_eq, show_val, val_eq};
+pub use text::{gt_text, header_from_text, implied_first_phasing, parse_gt, percent_decode, percent_encode, rec_from_line, reserved_def, span, to_vcf_header, to_vcf_line};
+
+/// Before VCF 4.4 the phasing of a genotype's first allele cannot be written; both sides of a
+/// comparison are brought to the implied value.
+pub fn canon_first_phasing(r: &mut RecDesc) {
+    for row in &mut r.samples {
+        for v in row.iter_mut() {
+            if let Some(Val::Gt(g)) = v {
+                if !g.is_empty() {
+                    let implied = implied_first_phasing(g);
+                    g[0].phased = implied;
+                }
+            }
+        }
+    }
+}
+
+/// Data-free class of an error value: its `Debug` rendering with string literals dropped and digit
+/// runs collapsed (`InvalidInfo(InvalidField(InvalidValue(_, InvalidCharacter)))`).
+pub fn err_class(e: &dyn std::fmt::Debug) -> String {
+    let s = format!("{e:?}");
+    let mut out = String::new();
+    let mut chars = s.chars().peekable();
+    let mut prev_hash = false;
+    while let Some(c) = chars.next() {
+        if c == '"' {
+            // skip the literal
+            let mut esc = false;
+            for d in chars.by_ref() {
+                if esc {
+                    esc = false;
+                } else if d == '\\' {
+                    esc = true;
+                } else if d == '"' {
+                    break;
+                }
+            }
+            out.push('_');
+            prev_hash = false;
+        } else if c.is_ascii_digit() {
+            if !prev_hash {
+                out.push('#');
+            }
+            prev_hash = true;
+        } else {
+            prev_hash = false;
+            if !c.is_whitespace() {
+                out.push(c);
+            }
+        }
+        if out.len() > 200 {
+            break;
+        }
+    }
+    out
+}
+
+/// `io::Error` -> class of its inner error (its message for plain string errors, with literals and
+/// digits dropped), or of its kind when there is none.
+pub fn io_err_class(e: &std::io::Error) -> String {
+    match e.get_ref() {
+        Some(inner) => {
+            let dbg = format!("{inner:?}");
+            if dbg.starts_with('"') {
+                // a plain message: `io::Error::new(kind, "text")`
+                let msg = inner.to_string();
+                let cut = msg.split(':').next().unwrap_or("").to_string();
+                format!("{:?}:{}", e.kind(), err_class(&DisplayAsDebug(&cut)))
+            } else {
+                err_class(&inner)
+            }
+        }
+        None => format!("{:?}", e.kind()),
+    }
+}
+
+struct DisplayAsDebug<'a>(&'a str);
+
+impl std::fmt::Debug for DisplayAsDebug<'_> {
+    fn fmt(&self, f: &mut std::fmt::Formatter<'_>) -> std::fmt::Result {
+        f.write_str(&self.0.replace(' ', "-"))
+    }
+}
